@@ -119,7 +119,10 @@ const EXTREME: &[&str] = &[
     "0", "1", "2", "3", "2147483647", "2147483648", "4294967295", "4294967296", "4611686018427387904", "9223372036854775807",
     "9223372036854775808", "18446744073709551614", "18446744073709551615", "18446744073709551616", "100000000000000000000", "00000000000000000000002",
 ];
-const BODIES: &[&str] = &["a", "ab", "(?:abcde)", "a?", "(a|bc)", "[ab]", "^", "$", "(?:a{2})", "(a)", ".", "\\d", "(?:a|)", "(?:ab|c){2}"];
+const BODIES: &[&str] = &[
+    "a", "ab", "(?:abcde)", "a?", "(a|bc)", "[ab]", "^", "$", "(?:a{2})", "(a)", ".", "\\d", "(?:a|)", "(?:ab|c){2}", "(?:a{9223372036854775808})", "(?:a{4611686018427387904})",
+    "(a{18446744073709551615})", "(?:ab{9223372036854775807})", "(?:b|^)", "(?:$|a)", "((a){4294967296})",
+];
 
 pub fn extreme_part() -> BoxedStrategy<StrCase> {
     let piece = (0..BODIES.len(), 0..EXTREME.len(), 0..EXTREME.len(), 0u8..4, any::<bool>()).prop_map(|(b, n, m, form, rel)| {
@@ -137,7 +140,16 @@ pub fn extreme_part() -> BoxedStrategy<StrCase> {
             let pattern = match wrap {
                 0 => inner,
                 1 => format!("^{inner}"),
-                2 => format!("(?:{inner}){{{}}}", EXTREME[(raw[0].len() * 3) % EXTREME.len()]),
+                2 => {
+                    let k = (raw[0].len() * 3) % EXTREME.len();
+                    let k2 = (raw[1].len() * 5 + 1) % EXTREME.len();
+                    match raw[2].len() % 4 {
+                        0 => format!("(?:{inner}){{{}}}", EXTREME[k]),
+                        1 => format!("(?:{inner}){{0,{}}}", EXTREME[k]),
+                        2 => format!("(?:{inner}){{{},}}?", EXTREME[k]),
+                        _ => format!("({inner}){{{},{}}}", EXTREME[k.min(k2)], EXTREME[k.max(k2)]),
+                    }
+                }
                 3 => format!("x{inner}y"),
                 4 => format!("({inner})\\1"),
                 _ => format!("{inner}|b"),
@@ -272,6 +284,41 @@ impl Prop for C05 {
             Part { name: "extreme-bounds".into(), strategy: extreme_part(), cases: tier.pick(60_000, 1_000_000) },
             Part { name: "precondition-shape".into(), strategy: precondition_part(), cases: tier.pick(60_000, 1_000_000) },
         ]
+    }
+    fn enumerations(&self, _tier: Tier) -> Vec<(String, String, Box<dyn Iterator<Item = StrCase> + Send>)> {
+        // every combination of an inner and an outer extreme quantifier over three small bodies
+        let mut v = vec![];
+        let ext = EXTREME.len() - 1; // without the zero-padded spelling
+        for body in ["a", "(a)", "ab"] {
+            for i in 0..ext {
+                for iform in 0..3 {
+                    let inner = match iform {
+                        0 => format!("{body}{{{}}}", EXTREME[i]),
+                        1 => format!("{body}{{{},}}", EXTREME[i]),
+                        _ => format!("{body}{{0,{}}}", EXTREME[i]),
+                    };
+                    for n in 0..ext {
+                        for (oform, rel) in [(0, ""), (1, ""), (2, ""), (0, "?"), (2, "?")] {
+                            let outer = match oform {
+                                0 => format!("{{{}}}", EXTREME[n]),
+                                1 => format!("{{{},}}", EXTREME[n]),
+                                _ => format!("{{0,{}}}", EXTREME[n]),
+                            };
+                            v.push(StrCase {
+                                dialect: Dialect::XPath,
+                                pattern: format!("x(?:{inner}){outer}{rel}y"),
+                                flags: String::new(),
+                                inputs: vec!["xy".into(), "xay".into(), "xaby".into(), "".into()],
+                                replacements: vec!["$1".into()],
+                                tag: "nested-extreme-bounds".into(),
+                            });
+                        }
+                    }
+                }
+            }
+        }
+        let n = v.len();
+        vec![("nested-extreme-bounds".into(), format!("{n} patterns x(?:B{{inner}}){{outer}}y: bodies a, (a), ab x 15 extreme values x 3 inner forms x 15 x 5 outer forms, on 4 inputs"), Box::new(v.into_iter()))]
     }
     fn check(&self, case: &StrCase, ctx: &mut Ctx) -> Verdict {
         check_no_panic(case, ctx)
